@@ -34,6 +34,8 @@ TEMPLATES = [
     'function {0}() {{ var o = {{ get p() {{ var {1}; return {1}; }} }}; return [{1}, {2}, o, {3}]; }}',
     'function {0}({1}) {{ return function() {{ return {2}; }} }} function {3}() {{ return {0}({2}); }}',
     'function {0}() {{ function {1}() {{ {2}; }} var {3} = function {1}() {{ return {1}; }}; }}',
+    'function {0}({1}) {{ try {{ {1}(); }} catch ({2}) {{ return function({3}, q) {{ return [{2}, {3}, q]; }}; }} }}',
+    'function {0}() {{ try {{}} catch ({1}) {{ try {{ {3}; }} catch ({2}) {{ return [{1}, {2}, {3}]; }} }} }}',
 ]
 K_CATCH_VAR = 'C07: a var inside a catch block that re-declares the catch parameter is renamed with the parameter, so the hoisted function-scope variable changes name'
 K_FUNCEXPR_NAME = 'C07: the name of a named function expression is treated as declared in the enclosing scope, so a free reference of the same spelling there is renamed with it'
